@@ -38,6 +38,8 @@ class C14(vlib.HistoryProp):
                 "counts executed instructions (hook H4) and the correspondence compares the count, so the statement -> instruction costs of the model are checked",
                 "protection-off (and no-limit, constant-clock) runs never contain an endless loop: the host call would not return (model and specification say `hang`)",
                 "a thread interrupted by an abort stays a zombie until Reset (not observed: IsIdle is not part of the observation)",
+                "yielding busy loops are outside the quantifier and not expressible in the model: `while(1) { wait 0 }` is never interrupted (every resume in "
+                "the same ExecuteRunning loop gets a fresh deadline), the host call does not return even with loop protection",
                 "wait literals are printed as %.3f seconds (exact for the values used: checked by the correspondence itself)"]
 
     # ------------------------------------------------------------------ scenarios
